@@ -7,6 +7,13 @@ ENGINES = [
 NOTES = "All checks rebuild from /repo's current working tree. Exit 2 = internal error of the machinery (never a verdict)."
 NOT_APPLICABLE = {}
 META = {
+    "C09": {
+        "engine": "explicit-state search + controlled scheduler (vsched)",
+        "design_ref": "DESIGN.md section 3 C09, section 2.3",
+        "technique": "explicit-state BFS to closure over event histories on the real alert.Topics (map reference model) + stateless deviation-bounded exploration of all interleavings of concurrent publishers on the instrumented package under a controlled scheduler",
+        "level_text": "Part A closes the state space of one topic (3 ids x 4 levels, stored order included) and checks every query and the handler log after every transition. Part C runs 2-3 real publisher goroutines over the AST-instrumented alert package: every gate (lock, channel operation, select) is a scheduling point, all schedules up to the deviation bound are executed and checked (exactly-once delivery, previous-level chain in handler order, final state, topic level).",
+        "level_note": "Trusted: Go runtime/synctest, the instrumenter (conformance: upstream unit tests pass on the rewritten packages in pass-through mode). Match expressions, publish/aggregate handlers of services/alert are not yet enumerated here. Plain-memory races are outside the explored space.",
+    },
     "C18": {
         "engine": "bounded exhaustive enumeration + identity oracle",
         "design_ref": "DESIGN.md section 3 C18",
